@@ -169,9 +169,23 @@ def ItemIn : Syn → String → String → String → Bool → Prop
   | .more a _ rest, n, op, v, sw => AtomItemIn a n op v sw ∨ ItemIn rest n op v sw
 end
 
+/-- **Results of `intersect` / `union` are printable**: for printable operands over leaves satisfying the
+leaf facts and having a text, the result is Any, Empty, or has a marker text (whichever of the DNF, the CNF
+and the unnormalised candidate wins on complexity) — every fuel, every stack. -/
+theorem algebra_printable_partial {ev : Leaf → Bool} (S : LeafSpec ev G) (hP : ∀ l, G l → Leaf.Printable l)
+    {a b r : M} (ha : M.Good G a) (hb : M.Good G b) (pa : (M.toSyn a).isSome = true)
+    (pb : (M.toSyn b).isSome = true) :
+    (mIntersect fuel stk a b = .ok r → r.PrintableE) ∧ (mUnion fuel stk a b = .ok r → r.PrintableE) :=
+  ⟨mIntersect_printable S hP fuel stk a b r ha hb pa pb, mUnion_printable S hP fuel stk a b r ha hb pa pb⟩
+
+example : LeafSpec (leafEval Ex.envAB) Ex.G0 ∧ (∀ l, Ex.G0 l → Leaf.Printable l) ∧
+    (M.toSyn (.multi [.leaf (.single Ex.sA), .leaf (.single Ex.sB)])).isSome = true := by
+  refine ⟨Ex.leafSpec0, ?_, rfl⟩
+  intro l hl; rcases hl with rfl | rfl | rfl <;> rfl
+
 /-- what is not proved: the character level (the text of a grammar tree, lexed and parsed by the model of
 `markers.lark`, is that tree — items with grammar names/operators and values free of quotes, backslashes
-and newlines), and printability of `intersect`/`union` results (their "unnormalised" candidate) -/
+and newlines) -/
 def C13_print_parse_full_statement : Prop :=
   ∀ t : Syn, (∀ n op v sw, ItemIn t n op v sw → n ∈ names ∧ op ∈ ops ∧ ∀ c ∈ v.toList, c ≠ '"' ∧ c ≠ '\\' ∧ c ≠ '\n' ∧ c ≠ '\'') →
     parseText t.text = .ok t
